@@ -129,3 +129,8 @@ add("C25", "exploration", "vh",
     "exhaustive exploration of programs x flag sets x budgets x allocation-fault points under catch_unwind, in an assertion-enabled build",
     "Every program of 12 spaces x 5 flag sets (incl. every defined flag bit) x budgets {0,1,C-1,C,u64::MAX}; for the allocation-heavy spaces every heap limit and every atom/pair-cap headroom from 0 up to the first one that reproduces the unconstrained outcome (the k-th allocation fails, all k) with a monotone, peak-free oracle; every opcode called directly with every small argument list (proper and improper, inline and heap atoms); deep structures up to 10^5|10^6 in a child process with an 8 MiB stack. Oracle: no panic / abort / stack overflow, never InternalError, caps reported with the matching error.",
     "The harness is built with overflow-checks and debug-assertions, so wrap-arounds and debug_assert! failures surface as panics. Programs beyond the scopes are not covered.")
+
+add("C05", "exploration", "vh",
+    "exhaustive differential exploration across three separately built binaries (default, no-fastpath, counters+pre-eval)",
+    "About 4.8M (quick) cases - every program of eight spaces x 4 flag sets x 4 budgets, 23 operators called directly with every argument list of arity <=3|4 over boundary atoms in inline / heap / view representation under both cost models, sha256 of (1 n) for n=0..40 in every representation - are evaluated by three harness binaries built against clvmr with default features, no-fastpath, and counters+pre-eval (observe-only callback, run_program_with_counters); the per-case outcome digests (result, cost, error string, atom/pair/heap counts) must be byte-identical.",
+    "The quick command builds three binaries (about 1-3 minutes when cold). The accumulator choice of the pre-hard-fork +/- slow path is scripted identically in all binaries (hook H4).")
